@@ -171,6 +171,7 @@ struct Agg {
     known_hits: BTreeMap<String, (u64, String)>,
     violation: Option<(Run, Violation)>,
     log_hashes: BTreeMap<u64, (u64, String)>,
+    slowest: (f64, u64),
 }
 
 fn outcome_digest(o: &Outcome) -> String {
@@ -329,10 +330,11 @@ fn cmd_run(get: &dyn Fn(&str) -> Option<String>) -> i32 {
         known_hits: BTreeMap::new(),
         violation: None,
         log_hashes: BTreeMap::new(),
+        slowest: (0.0, 0),
     }));
     let known = Arc::new(known);
 
-    // backstop: a run that takes longer than 300 s of wall clock is a harness error (exit 2)
+    // backstop: a run that takes longer than 900 s of wall clock is a harness error (exit 2)
     let running: Arc<Mutex<Vec<Option<(Instant, u64)>>>> = Arc::new(Mutex::new(vec![None; threads]));
     {
         let running = running.clone();
@@ -341,8 +343,8 @@ fn cmd_run(get: &dyn Fn(&str) -> Option<String>) -> i32 {
             std::thread::sleep(std::time::Duration::from_millis(500));
             for slot in running.lock().unwrap().iter() {
                 if let Some((t, i)) = slot {
-                    if t.elapsed().as_secs() > 300 {
-                        eprintln!("HARNESS ERROR: run index {i} of check {check_id} (VERIF_SEED={seed}) exceeded 300 s of wall clock");
+                    if t.elapsed().as_secs() > 900 {
+                        eprintln!("HARNESS ERROR: run index {i} of check {check_id} (VERIF_SEED={seed}) exceeded 900 s of wall clock");
                         std::process::exit(2);
                     }
                 }
@@ -379,10 +381,15 @@ fn cmd_run(get: &dyn Fn(&str) -> Option<String>) -> i32 {
             if let Some(p) = &progress_prefix {
                 let _ = std::fs::write(format!("{p}.{tno}"), format!("{i}"));
             }
-            running.lock().unwrap()[tno] = Some((Instant::now(), i));
+            let t_run = Instant::now();
+            running.lock().unwrap()[tno] = Some((t_run, i));
             let o = exec_isolated(check, &run);
             running.lock().unwrap()[tno] = None;
             let mut a = agg.lock().unwrap();
+            let dt = t_run.elapsed().as_secs_f64();
+            if dt > a.slowest.0 {
+                a.slowest = (dt, i);
+            }
             a.evaluations += 1;
             a.ops_executed += o.ops_executed;
             let key = run.canonical_key();
@@ -561,6 +568,7 @@ fn cmd_run(get: &dyn Fn(&str) -> Option<String>) -> i32 {
         "wall_s": wall,
         "main_wall_s": main_wall,
         "runs_per_hour": if main_wall > 0.0 { (a.evaluations as f64 / main_wall * 3600.0) as u64 } else { 0 },
+        "slowest_run": {"seconds": a.slowest.0, "index": a.slowest.1},
         "rule": check.rule(),
         "fault_kinds": check.fault_kinds(),
         "enumerated": check.enumerated(tier).min(a.evaluations),
@@ -570,6 +578,7 @@ fn cmd_run(get: &dyn Fn(&str) -> Option<String>) -> i32 {
     if let Some(p) = out_path {
         std::fs::write(&p, serde_json::to_string_pretty(&stats).unwrap()).expect("write stats");
     }
+    println!("slowest run: index {} took {:.1}s", a.slowest.1, a.slowest.0);
     println!(
         "done: {} runs, {} distinct non-trivial, {} states, {:.1}s, exit {}",
         a.evaluations,
